@@ -59,7 +59,25 @@ def schedule_value(x, name, ms=1):
 
 
 def open_walrus(x, consistency='StrictlyAtOnce', persist_every=None, schedule='NoFsync', root=ROOT):
-    """Walrus::with_paths interpreted from source on the model file system"""
+    """Walrus::with_paths interpreted from source on the model file system.
+    The very first open of a path (empty world, no symbolic input involved) is interpreted once per worker and
+    its resulting world is deep-copied for the following paths."""
+    import copy
+    fresh = not x.fs.files and not x.globals and not x.io_log
+    pe_key = None if persist_every is None else str(z3.simplify(persist_every.t))
+    key = (x.backend_fd, consistency, pe_key, schedule, root, tuple(sorted(x.fs.dirs)), x.clock)
+    cache = x.__dict__.setdefault('_open_cache', {})
+    if fresh and key in cache:
+        snap = copy.deepcopy(cache[key])
+        x.fs, x.globals, x.threads, x.io_log, x.clock, x.fs_deleted = snap['fs'], snap['globals'], snap['threads'], snap['io_log'], snap['clock'], snap['fs_deleted']
+        return snap['result']
+    r = _open_walrus(x, consistency, persist_every, schedule, root)
+    if fresh and not x.new_alts and x.qpos == 0 and x.pos == 0:
+        cache[key] = copy.deepcopy(dict(fs=x.fs, globals=x.globals, threads=x.threads, io_log=x.io_log, clock=x.clock, fs_deleted=x.fs_deleted, result=r))
+    return r
+
+
+def _open_walrus(x, consistency, persist_every, schedule, root):
     set_backend(x)
     paths = Arc(Struct('WalPathManager', {'root': PStr(root)}))
     r = x.deref(x.call('Walrus', 'with_paths', [paths, mode_value(x, consistency, persist_every), schedule_value(x, schedule)]))
